@@ -753,9 +753,11 @@ class Blockwise(ArrayExpr):
                     return None  # Non-unit step not supported
 
                 first, last = find_block_range(cumsum, start, stop)
-                if first is None:
-                    block_ranges.append((0, -1))  # Empty
-                    output_adjustments.append(slice(0, 0))
+                if first is None or last < first:
+                    # Empty selection: no output block is needed, and the
+                    # per-block adjust_chunks of the remaining (zero-width)
+                    # input block cannot be derived. Leave the slice on top.
+                    return None
                 else:
                     block_ranges.append((first, last))
                     coarse_start = int(cumsum[first])
